@@ -524,3 +524,124 @@ def decision_dominates_accept(view, patterns):
         return False, False, acc
     bad = [b for b in acc if not any(view.dominates(d, b) for d in dec)]
     return True, not bad and bool(acc), bad
+
+
+# ---------------------------------------------------------------------------------------------
+# deadline coverage: a timer is consulted on every path to a return and flows into the answer
+def field_read_blocks(view, field):
+    """Blocks of `view` whose statements / terminator mention `self.<field>` (resolved)."""
+    out = set()
+
+    def has(e):
+        return any(self_field(x) == field for x in subexprs(e) if x[0] == 'var')
+    for (i, j, s) in view.stmts():
+        if s['k'] == 'assign' and not is_log_mac(s.get('mac', '')):
+            if has(view.rvalue_expr(s['rv'], i)):
+                out.add(i)
+    for cs in view.calls(skip_log=True):
+        if any(has(cs.arg(k)) for k in range(len(cs.args))):
+            out.add(cs.bb)
+    for i in view.live_blocks():
+        t = view.blocks[i]['term']
+        if t['k'] == 'switch' and not is_log_mac(t.get('mac', '')) and has(view.operand_expr(t['op'], i)):
+            out.add(i)
+    return out
+
+
+def consulted_on_every_return(view, field):
+    """(ok, blocks reading the field, a return block reachable without reading it)."""
+    rb = field_read_blocks(view, field)
+    if not rb:
+        return False, rb, None
+    if 0 in rb:
+        return True, rb, None
+    seen = view.reach([0], avoid=rb)
+    bad = [b for b in view.exits() if b in seen]
+    return (not bad), rb, (bad[0] if bad else None)
+
+
+# ---------------------------------------------------------------------------------------------
+# use-after-drain: a local container is emptied (moved from by `append`, drained, cleared, taken)
+# and read afterwards — the later read silently sees nothing
+def use_after_drain(view):
+    """-> list of (name, drain CallSite, later CallSite)."""
+    out = []
+    drains = []
+    for cs in view.calls(skip_log=True):
+        meth = cs.nfn.split('::')[-1]
+        idxs = {'append': [1], 'drain': [0], 'clear': [0], 'take': [0], 'split_off': [], 'truncate': []}.get(meth)
+        if not idxs:
+            continue
+        for i in idxs:
+            if i >= len(cs.args):
+                continue
+            b = borrow_of(view, cs.args[i])
+            if b is None or not b[0]:
+                continue
+            e = b[1]
+            if e[0] == 'var' and not e[2] and e[1] != 'self':
+                drains.append((e[1], cs))
+    if not drains:
+        return out
+    succ, _, _ = view.graph()
+    for name, dcs in drains:
+        after = view.reach(list(succ[dcs.bb]))
+        for cs in view.calls(skip_log=True):
+            if cs.bb not in after or cs.bb == dcs.bb:
+                continue
+            meth = cs.nfn.split('::')[-1]
+            if meth in ('drop', 'drop_in_place'):
+                continue
+            for i in range(len(cs.args)):
+                a = cs.arg(i)
+                if a == ('var', name, ()):
+                    # re-filled in between?  (an assignment / swap into the variable kills the drain)
+                    refills = [m for m in mutations(view) if m.path == ('var', name, ()) and (m.kind == 'assign' or m.method in ('swap', 'push_back', 'push_front', 'push', 'insert', 'extend'))
+                               and m.bb in after and (cs.bb in view.reach(list(succ[m.bb])) or m.bb == cs.bb)]
+                    if not refills:
+                        out.append((name, dcs, cs))
+                    break
+    return out
+
+
+# ---------------------------------------------------------------------------------------------
+# must-effects: writes to self.<field> that happen on *every* path of a method (through local callees)
+def must_field_effects(F, view, depth=3, _seen=None):
+    """-> {field: set(renderings of the value written / 'clear()' ...)} for effects that every
+    entry->return path performs.  Callee effects count when the call block is on every path."""
+    _seen = _seen or set()
+    if view.key in _seen or depth < 0:
+        return {}
+    _seen = _seen | {view.key}
+    per_block = {}   # bb -> list of (field, what)
+    for m in mutations(view):
+        f = self_field(m.path)
+        if f is None:
+            continue
+        if m.kind == 'assign' and show(m.path) == 'self.' + f:
+            per_block.setdefault(m.bb, []).append((f, show(m.rv)))
+        elif m.kind == 'mutcall' and show(m.path) == 'self.' + f:
+            per_block.setdefault(m.bb, []).append((f, m.method + '()'))
+    for cs, cv in F.callees_of(view):
+        if cs is None or cv.key == view.key:
+            continue
+        if not cs.args:
+            continue
+        a0 = cs.arg(0)
+        if not (a0[0] == 'var' and a0[1] == 'self' and not a0[2]):
+            continue
+        for f, whats in must_field_effects(F, cv, depth - 1, _seen).items():
+            for w in whats:
+                per_block.setdefault(cs.bb, []).append((f, w))
+    out = {}
+    fields = {f for effs in per_block.values() for f, _ in effs}
+    for f in fields:
+        blocks = [b for b, effs in per_block.items() if any(ff == f for ff, _ in effs)]
+        if 0 in blocks:
+            ok = True
+        else:
+            seen = view.reach([0], avoid=blocks)
+            ok = not any(e in seen for e in view.exits())
+        if ok:
+            out[f] = {w for b in blocks for ff, w in per_block[b] if ff == f}
+    return out
